@@ -120,13 +120,17 @@ PROPS = {
                 "rebuild, and after repeating the removal; the other bugs stay listed and searchable. TestC14Wipe: the real CLI on "
                 "host repositories with/without identity, 0..4 bugs, bridge configuration, a remote, a remote-only bug, foreign "
                 "configuration: exit 0, no ref under the four git-bug namespaces, no git-bug.* key, nothing under .git/git-bug, "
-                "foreign refs and configuration intact. Non-trivial: >=1 remote holds the entity and >=1 other entity exists (remove); "
+                "foreign refs and configuration intact; in a third of the cases the refs are packed first (git pack-refs --all, "
+                "what git gc does). TestC14RemoveAll: RepoCache.RemoveAll (first step of wipe) over 1..24 identities and 0..24 bugs, "
+                "refs loose or packed, with or without remote-tracking refs: judged by stock git for-each-ref, no local ref is left. "
+                "Non-trivial: >=1 remote holds the entity and >=1 other entity exists (remove); "
                 "identity or bridge configured (wipe). Distinct: entity x mode x remotes/holders x others x shared prefixes x edits.",
         "assumptions": ["identities referenced by bugs are never removed (documented caller responsibility)",
                         "a repeated removal may return an error as long as nothing changes"],
         "needs_cli": True,
         "tests": [{"name": "TestC14Remove", "quick": 60, "shards_quick": 2, "thorough": 300, "shards": 12},
-                  {"name": "TestC14Wipe", "quick": 16, "shards_quick": 3, "thorough": 80, "shards": 8}],
+                  {"name": "TestC14Wipe", "quick": 16, "shards_quick": 3, "thorough": 80, "shards": 8},
+                  {"name": "TestC14RemoveAll", "quick": 60, "shards_quick": 2, "thorough": 400, "shards": 8}],
     },
     "C13": {
         "level": "exploration",
@@ -296,11 +300,15 @@ PROPS = {
     },
     "C01": {
         "level": "exploration",
-        "rule": "rapid generates action lists (8..40 actions, thorough ..110) over 2-3 go-git replicas sharing a bare remote: "
-                "new bug, edit with 1..4 operations of any kind by any author (several authors in one staging area give several "
-                "commits), push, pull; then pull+push rounds until no ref changes. Oracle: every bug readable on every replica, "
-                "identical operation-id order and compiled snapshot everywhere, id set = everything committed (model), refs equal "
-                "the remote's. Non-trivial: some final history holds a merge commit. Distinct: replica count + multiset of merge "
+        "rule": "rapid generates action lists (8..40 actions, thorough ..110) over 2-3 go-git replicas sharing one bare remote (two "
+                "thirds of the cases) or two (origin, alt): new bug, edit with 1..4 operations of any kind by any author (several "
+                "authors in one staging area give several commits), push/pull to/from either remote, edits of a replica's own identity, "
+                "and with two remotes a 'cross' episode (two replicas edit the same bug, publish on different remotes, fetch each "
+                "other's branch: both merge the same pair of heads in opposite parent order); then pull-all/push-all rounds until no "
+                "ref changes. Oracle: (a) after every pull, any two replicas that hold the same SET of operations of a bug under "
+                "different head commits show the same order and compiled snapshot; (b) at quiescence every bug readable on every "
+                "replica, identical operation-id order and compiled snapshot everywhere, id set = everything committed (model), refs "
+                "equal on all replicas and remotes. Non-trivial: some final history holds a merge commit. Distinct: replica count + multiset of merge "
                 "shapes (commits exclusive to each parent) + operation-kind multiset.",
         "assumptions": ["identities are exchanged before the bugs that reference them (as RepoCache.Pull/Push do)",
                         "a rejected non-fast-forward push is a legal outcome"],
@@ -312,7 +320,9 @@ PROPS = {
                 "pull: what was readable stays readable, pre is a subsequence of post, post = pre U remote (remote read on the bare "
                 "repository itself), remote-only bugs are created, report new/nothing/updated agrees with ref movement and op sets, "
                 "invalid never occurs, the entity handed back lists exactly the stored merged operations, and a later edit through "
-                "that handle never removes stored operations. Non-trivial: a pull that fast-forwarded (s4) or merged diverged "
+                "that handle never removes stored operations; the same clauses for identities over version chains read "
+                "independently (remote ahead by 1..6 versions: nothing lost, post = longer chain, new/updated/nothing truthful, the "
+                "identity handed back is the stored one). Non-trivial: a pull that fast-forwarded (s4) or merged diverged "
                 "branches (s5) an existing bug. Distinct: multiset of merge scenarios with branch lengths.",
         "assumptions": ["single-threaded harness: the bare remote equals the just-fetched state"],
         "tests": [{"name": "TestC02Pull", "quick": 60, "shards_quick": 4, "thorough": 400, "shards": 16}],
